@@ -265,20 +265,23 @@ INITIALS = {
 
 
 def _ev(code):
-    """event field of an op: 'x' or 'x!1' (event x, priority 1) -> (event, priority)"""
+    """event field of an op: 'x', 'x!1' (event x, priority 1) or 'x?g' (event x, guard g) -> (event, priority, guard)"""
     if code and '!' in code:
         name, prio = code.split('!')
-        return name, int(prio)
-    return code, 0
+        return name, int(prio), None
+    if code and '?' in code:
+        name, guard = code.split('?')
+        return name, 0, guard
+    return code, 0, None
 
 
 def _code(t):
-    return (t.event or '') + ('!%d' % t.priority if t.priority else '')
+    return (t.event or '') + ('!%d' % t.priority if t.priority else '') + ('?%s' % t.guard if t.guard else '')
 
 
 def _mk(src, tgt, code):
-    ev, prio = _ev(code)
-    return Transition(src, tgt, event=ev, priority=prio)
+    ev, prio, guard = _ev(code)
+    return Transition(src, tgt, event=ev, priority=prio, guard=guard)
 
 
 def apply_impl(sc, op):
@@ -363,7 +366,9 @@ def ops_for(ref):
         seen_t.add(tuple(t))
         ops.append(('remove_transition', t[0], t[1], t[2]))
         ops.append(('add_transition', t[0], t[1], t[2]))       # a second, equal-looking transition
-        if t[2] and '!' not in t[2]:
+        if t[2] and '!' not in t[2] and '?' not in t[2]:
+            ops.append(('add_transition', t[0], t[1], t[2] + '?g'))     # a twin that differs only in its guard
+            ops.append(('remove_transition', t[0], t[1], t[2] + '?h'))  # never added: differs from t in its guard only
             ops.append(('add_transition', t[0], t[1], t[2] + '!1'))     # a twin that differs only in its priority
             # a transition that was never added and differs from a registered one only in its priority
             ops.append(('rotate_transition', (t[0], t[1], t[2] + '!7'), names[0], ''))
